@@ -447,5 +447,6 @@ def main(tier):
     rep.attempt(c17.check_hash_clear, rep, mod)
     import recordfull
     rep.attempt(recordfull.check, rep, mod)
+    rep.attempt(c17.check_hashmask_field, rep, mod)      # stale buckets above a shrunken mask make the output depend on the context's previous contents
     rep.attempt(provenance.check_undef, rep, None, 'ALL', 130)
     return rep.finish()
